@@ -220,7 +220,7 @@ PROPS = {
         "miri": [("ark", "debug", 8, 0), ("min", "debug", 8, 0)],
     },
     "C12": {
-        "config_runs_quick": [('arkx', 'transcript'), ('minx', 'transcript')], "config_runs": [('arkx', 'transcript'), ('minx', 'transcript')],
+        "config_runs_quick": [('arkx', 'transcript'), ('minx', 'transcript'), ('minn', 'transcript')], "config_runs": [('arkx', 'transcript'), ('minx', 'transcript'), ('arkn', 'transcript'), ('minn', 'transcript')],
         "builds": ["ark", "min"], "level": "exploration", "design_ref": "DESIGN.md §3 C12",
         "subcommands": ["transcript"], "post": "c12_compare",
         "technique": "offline checker over recorded event logs: both builds execute the same seeded operation stream (16 shards) and "
@@ -231,7 +231,7 @@ PROPS = {
                 "double, 10 shared scalar forms and long-integer multiplication, each step logged as result encoding + identity/equality "
                 "bits. evaluations = lines compared; distinct_nontrivial = distinct transcript lines (measured by hashing) of one build.",
         "rule_more": "structured sections: all core-zoo pairs and Montgomery limb neighbours with cmp/eq/ne/hash lines, engineered square-root "
-                     "exponents, Elligator collisions, divstep worst-case inversions; the arkx / minx configurations are compared with ark too. Also Zeroize, equality across coset members at Z = 1, sentinel comparisons.",
+                     "exponents, Elligator collisions, divstep worst-case inversions; the arkx / minx configurations and the builds compiled with -C target-cpu=native (minn; thorough: arkn too), which enable the crate's cfg(target_feature) code paths for this CPU, are compared with ark too; decoding and field parsing of the same 32 bytes stored at each of the 16 distances from a 16-byte boundary. Also Zeroize, equality across coset members at Z = 1, sentinel comparisons.",
         "text": "Differential trace check between the two feature configurations over every operation both offer.",
         "note": "sqrt_ratio is logged as (was_square, y^2): the sign of y is not an observable both builds define under one name.",
     },
